@@ -714,3 +714,157 @@ Theorem gen_run_eq : forall (lower casefold : lbl -> lbl) (w : world) (ops : lis
   Inv (w_ns w) -> gen_run lower casefold w ops = run lower w ops.
 Proof. exact gen_run_eq_l. Qed.
 Print Assumptions gen_run_eq.
+
+From DV Require Import Model.C10CopyModel Model.C10CopyPrims Gen.NamespaceCopy Proofs.C10Copy Proofs.C10CopyGen.
+
+(* ================= 10. several namespaces: constructors, copies, independence =================
+   Model/C10CopyModel.v: the state is a collection of namespaces (handles = creation order) over
+   one universe of Taxon objects; `MOn h o` applies an operation of `step` to namespace h; the
+   constructor forms, copy.copy, copy.deepcopy, taxon_namespace_scoped_copy, ==, < are `mstep`
+   operations of their own (transcribed from TaxonNamespace.__init__/__copy__/__deepcopy__). *)
+
+(* 10a. the invariant of section 1 holds for EVERY namespace after every multi-namespace operation *)
+Theorem multi_inv_step : forall (lower : lbl -> lbl) (mw : mworld) (o : mop),
+  Forall Inv (mw_nss mw) -> Forall Inv (mw_nss (fst (mstep lower mw o))).
+Proof. exact mstep_inv. Qed.
+Print Assumptions multi_inv_step.
+
+(* ... hence in every state reachable from the empty collection by any history *)
+Theorem multi_inv_reachable : forall (lower : lbl -> lbl) (lab : list (tid * lbl)) (nxt : tid) (ops : list mop),
+  Forall Inv (mw_nss (mrun_world lower (mkMW [] lab nxt) ops)).
+Proof. intros. apply mrun_inv. constructor. Qed.
+Print Assumptions multi_inv_reachable.
+
+(* 10b. frame: only `MOn h _` can change namespace h; every other operation - on another
+   namespace, a constructor, a (deep) copy of h itself, a comparison - leaves h's member list,
+   index maps, counter, bitmask memo and flags exactly as they were *)
+Theorem namespaces_frame_step : forall (lower : lbl -> lbl) (mw : mworld) (o : mop) (h : nat) (n : ns),
+  nth_error (mw_nss mw) h = Some n -> ~ (exists o', o = MOn h o') ->
+  nth_error (mw_nss (fst (mstep lower mw o))) h = Some n.
+Proof. exact mstep_frame. Qed.
+Print Assumptions namespaces_frame_step.
+
+Theorem namespaces_frame_history : forall (lower : lbl -> lbl) (mw : mworld) (ops : list mop) (h : nat) (n : ns),
+  nth_error (mw_nss mw) h = Some n -> Forall (fun o => ~ (exists o', o = MOn h o')) ops ->
+  nth_error (mw_nss (mrun_world lower mw ops)) h = Some n.
+Proof. exact mrun_frame. Qed.
+Print Assumptions namespaces_frame_history.
+
+Theorem handles_stay_valid : forall (lower : lbl -> lbl) (mw : mworld) (o : mop),
+  (List.length (mw_nss mw) <= List.length (mw_nss (fst (mstep lower mw o))))%nat.
+Proof. exact mstep_handles. Qed.
+Print Assumptions handles_stay_valid.
+
+(* 10c. copy.copy(ns) / TaxonNamespace(ns): the new namespace is record-equal to the source - the
+   same Taxon objects in the same order, the same accession index (bit) for each, the same counter
+   and bitmask memo, the source's is_mutable and is_case_sensitive; no Taxon object is created, the
+   source is untouched.  The keywords is_mutable= / is_case_sensitive= of the constructor have NO
+   effect on the result when the source is a namespace (they are overwritten by the source's
+   values), except that is_mutable=False with a non-empty source raises TypeError *)
+Theorem copy_is_exact : forall (lower : lbl -> lbl) (mw : mworld) (h : nat) (n : ns),
+  Inv n -> nth_error (mw_nss mw) h = Some n ->
+  mstep lower mw (MCopy h) = (mkMW (mw_nss mw ++ [n]) (mw_lab mw) (mw_next mw), MHandle (List.length (mw_nss mw)))
+  /\ forall mut cs, mut <> Some false \/ taxa n = [] ->
+       mstep lower mw (MConstruct (SNs h) mut cs) = mstep lower mw (MCopy h).
+Proof. exact copy_exact. Qed.
+Print Assumptions copy_is_exact.
+
+Theorem construct_immutable_keyword_fails : forall (mw : mworld) (h : nat) (other : ns) (cs : option bool),
+  nth_error (mw_nss mw) h = Some other -> taxa other <> [] ->
+  construct mw (SNs h) (Some false) cs = Err TypeErr.
+Proof. exact construct_from_ns_immutable_kw. Qed.
+Print Assumptions construct_immutable_keyword_fails.
+
+(* 10d. a copy is an independent namespace: whatever history follows the copy, as long as it does
+   not address the original (resp. the copy) that namespace stays exactly the snapshot taken at
+   the copy - removals, additions, sorting, clearing, flag changes, further copies of the other
+   one never show *)
+Theorem copy_independent_of_original : forall (lower : lbl -> lbl) (mw : mworld) (h : nat) (n : ns) (ops : list mop),
+  Inv n -> nth_error (mw_nss mw) h = Some n ->
+  let mw1 := fst (mstep lower mw (MCopy h)) in
+  let c := List.length (mw_nss mw) in
+  c <> h
+  /\ nth_error (mw_nss mw1) c = Some n
+  /\ (Forall (fun o => ~ (exists o', o = MOn h o')) ops -> nth_error (mw_nss (mrun_world lower mw1 ops)) h = Some n)
+  /\ (Forall (fun o => ~ (exists o', o = MOn c o')) ops -> nth_error (mw_nss (mrun_world lower mw1 ops)) c = Some n).
+Proof. exact copy_independent. Qed.
+Print Assumptions copy_independent_of_original.
+
+(* 10e. copy.deepcopy(ns): a new namespace whose k-th member is a fresh object f t with the index
+   and label of the k-th member t of the source; same order, counter, flags; the source is untouched *)
+Theorem deepcopy_is_exact : forall (lower : lbl -> lbl) (mw : mworld) (h : nat) (n : ns),
+  Inv n -> nth_error (mw_nss mw) h = Some n ->
+  let w := mkW n (mw_lab mw) (mw_next mw) in
+  let f := ren (fresh_map (taxa n) (mw_next mw)) in
+  exists n', mstep lower mw (MDeepCopy h)
+             = (mkMW (mw_nss mw ++ [n']) (w_lab (deep_copy w)) (w_next (deep_copy w)), MHandle (List.length (mw_nss mw)))
+  /\ Inv n'
+  /\ taxa n' = map f (taxa n)
+  /\ (forall t, In t (taxa n) -> alookup (f t) (acc n') = alookup t (acc n))
+  /\ (forall x i, alookup x (acc n') = Some i -> exists t, In t (taxa n) /\ x = f t /\ alookup t (acc n) = Some i)
+  /\ (forall t, In t (taxa n) -> label_of (deep_copy w) (f t) = label_of w t)
+  /\ (forall t, In t (taxa n) -> mw_next mw <= f t < w_next (deep_copy w))
+  /\ (forall t1 t2, In t1 (taxa n) -> In t2 (taxa n) -> f t1 = f t2 -> t1 = t2)
+  /\ count n' = count n /\ is_mut n' = is_mut n /\ is_cs n' = is_cs n.
+Proof. exact deepcopy_exact. Qed.
+Print Assumptions deepcopy_is_exact.
+
+(* 10f. sort / reverse change the iteration order of THAT namespace and nothing else: index maps,
+   counter, memo, flags, labels and every other namespace are untouched *)
+Theorem reorder_changes_order_only : forall (lower : lbl -> lbl) (mw : mworld) (h : nat) (n : ns) (o : op),
+  nth_error (mw_nss mw) h = Some n -> (o = Reverse \/ exists r, o = Sort r) ->
+  exists tx, fst (mstep lower mw (MOn h o))
+             = mkMW (upd (mw_nss mw) h (mkNs tx (acc n) (rev n) (count n) (bm n) (is_mut n) (is_cs n)))
+                    (mw_lab mw) (mw_next mw)
+    /\ Permutation (taxa n) tx
+    /\ tx = match o with Sort r => C10Model.py_sort (mkW n (mw_lab mw) (mw_next mw)) r (taxa n) | _ => List.rev (taxa n) end.
+Proof. exact reorder_only_order. Qed.
+Print Assumptions reorder_changes_order_only.
+
+(* the assignments ns.is_mutable = b / ns.is_case_sensitive = b change that flag only *)
+Theorem flag_setters_change_flag_only : forall (lower : lbl -> lbl) (mw : mworld) (h : nat) (n : ns) (b : bool),
+  nth_error (mw_nss mw) h = Some n ->
+  mstep lower mw (MOn h (SetMutable b))
+  = (mkMW (upd (mw_nss mw) h (mkNs (taxa n) (acc n) (rev n) (count n) (bm n) b (is_cs n))) (mw_lab mw) (mw_next mw), MBase OUnit)
+  /\ mstep lower mw (MOn h (SetCS b))
+  = (mkMW (upd (mw_nss mw) h (mkNs (taxa n) (acc n) (rev n) (count n) (bm n) (is_mut n) b)) (mw_lab mw) (mw_next mw), MBase OUnit).
+Proof. exact flag_setters_only_flag. Qed.
+Print Assumptions flag_setters_change_flag_only.
+
+(* 10g. per-namespace bit stability in a multi-namespace history: a taxon that is a member of
+   namespace h before and after ANY operation (on h, on another namespace that shares the Taxon
+   object, a copy, ...) keeps its accession index in h; (MOn h DeepCopy re-binds the handle to a
+   deep copy - fresh objects - and is the one excluded operation) *)
+Theorem multi_bit_stable : forall (lower : lbl -> lbl) (mw : mworld) (o : mop) (h : nat) (n n' : ns) (t : tid) (i : Z),
+  Forall Inv (mw_nss mw) -> ~ (exists h', o = MOn h' DeepCopy) ->
+  nth_error (mw_nss mw) h = Some n -> In t (taxa n) -> alookup t (acc n) = Some i ->
+  nth_error (mw_nss (fst (mstep lower mw o))) h = Some n' -> In t (taxa n') ->
+  alookup t (acc n') = Some i.
+Proof. exact mbit_stable. Qed.
+Print Assumptions multi_bit_stable.
+
+(* 10h. translator tie (py/dv/gen_nscopy.py -> Gen/NamespaceCopy.v, primitives Model/C10CopyPrims.v):
+   the constructor generated from TaxonNamespace.__init__ equals the model's `construct` for every
+   source form and keyword combination; __copy__; taxon_namespace_scoped_copy *)
+Theorem gen_init_eq : forall (mw : mworld) (src : csrc) (mut cs : option bool),
+  py_TaxonNamespace_init mw
+    (match src with SNone => [] | SNs h => [CNs h]
+     | SItems l => [CItems (map (fun i => match i with ITaxon t => VTaxon t | ILabel l => VLabel l end) l)] end)
+    ((match mut with Some b => [("is_mutable"%string, VBool b)] | None => [] end)
+     ++ (match cs with Some b => [("is_case_sensitive"%string, VBool b)] | None => [] end))
+  = construct mw src mut cs.
+Proof. exact gen_init_eq_l. Qed.
+Print Assumptions gen_init_eq.
+
+Theorem gen_copy_eq : forall (mw : mworld) (h : nat),
+  py_TaxonNamespace_copy mw h = construct mw (SNs h) None None.
+Proof. exact gen_copy_eq_l. Qed.
+Print Assumptions gen_copy_eq.
+
+Theorem gen_scoped_copy : forall (h : nat) (n : ns) (m : list (tid * tid)),
+  py_scoped_copy h n None = (h, None)
+  /\ exists m', py_scoped_copy h n (Some m) = (h, Some m')
+       /\ (forall t, In t (taxa n) -> alookup t m' = Some t)
+       /\ (forall t, ~ In t (taxa n) -> alookup t m' = alookup t m).
+Proof. exact gen_scoped_copy_l. Qed.
+Print Assumptions gen_scoped_copy.
